@@ -54,7 +54,7 @@ func runHistory(t *rapid.T, persistent bool) {
 	w := lstore.NewWorld(t, cfg, nil, rapid.Uint64().Draw(t, "hashInit"))
 	defer w.Close()
 
-	var failedKeysRead, heldAcrossRotation, rotationsDuringSlicing, overlappedFM, parkedFM int
+	var failedKeysRead, heldAcrossRotation, rotationsDuringSlicing, overlappedFM, parkedFM, writerQueued int
 	failedObjs := map[*lstore.Obj]bool{}
 
 	newUpload := func() {
@@ -309,6 +309,36 @@ func runHistory(t *rapid.T, persistent bool) {
 				overlappedFM++
 			}
 		},
+		// A read / existence check / composite read during whose first,
+		// read-locked section another client's block-sized upload queues for
+		// the write lock: the upload allocates (rotates) between the
+		// read-locked and the write-locked section of the refreshing call.
+		"readWithWriterQueued": func(t *rapid.T) {
+			o := lstore.PickObj(t, w, "obj")
+			if o == nil || persistent {
+				fallback()
+				return
+			}
+			inst := rapid.SampledFrom(lstore.InstanceNames).Draw(t, "inst")
+			kind := rapid.SampledFrom([]string{"get", "get", "findmissing", "composite"}).Draw(t, "kind")
+			if kind == "composite" && (cfg.Mutable || o.Data == nil) {
+				kind = "get"
+			}
+			c.Add("readWithWriterQueued", o.ID, inst, kind)
+			fired := w.WithWriterQueued(func() {
+				switch kind {
+				case "get":
+					w.Get(o, inst)
+				case "findmissing":
+					w.FindMissing([]lstore.ObjInst{{Obj: o, Instance: inst}})
+				case "composite":
+					w.GetFromComposite(o, inst, nil, 0)
+				}
+			})
+			if fired {
+				writerQueued++
+			}
+		},
 		"": func(t *rapid.T) {
 			w.Poll()
 			w.CheckMonitors()
@@ -347,6 +377,7 @@ func runHistory(t *rapid.T, persistent bool) {
 	c.ClassIf(rotationsDuringSlicing > 0, "rotation_during_composite_slicing")
 	c.ClassIf(overlappedFM > 0, "findmissing_waited_for_refresh_lock_during_uploads")
 	c.ClassIf(parkedFM > 0, "findmissing_parked_in_refresh_copy")
+	c.ClassIf(writerQueued > 0, "upload_queued_on_write_lock_during_read_locked_section")
 	c.ClassIf(w.Flags["findmissing_refresh_target_rotated_away"] > 0, "findmissing_refresh_target_rotated_away")
 	c.ClassIf(w.St.BL.PopFronts > 0, "rotated")
 	c.ClassIf(w.St.Alloc.NewBlockFailures > 0, "alloc_failures")
